@@ -119,6 +119,23 @@ def simulate(top, bench, mon=None):
     sim.run()
 
 
+def decoy(rng, build, p=0.3):
+    """With probability p, build (and elaborate) a throw-away twin of the component first - same class, same
+    parameters, separate objects - so that anything instances share through class- or module-level state
+    shows up in the monitored instance built afterwards. `build` is a zero-argument callable returning the
+    component (or a tuple whose first element is the component)."""
+    if rng.random() >= p:
+        return False
+    from amaranth.hdl import Fragment
+    twin = build()
+    comp = twin[0] if isinstance(twin, tuple) else twin
+    try:
+        Fragment.get(Top({"decoy": comp}), None)
+    except Exception:
+        pass          # whatever the twin does is judged on the monitored instance, not here
+    return True
+
+
 def bits(rng, width):
     return rng.getrandbits(width) if width > 0 else 0
 
